@@ -458,11 +458,26 @@ func genC15WithTriggers(g *Gen, tier string, w *bufio.Writer) {
 			w.WriteByte('\n')
 		}
 	}
+	// stream join / outer join (also "operators" of C15): a sample of C19's (scripts, interleaving) lines, judged by
+	// C19's oracle (consolidated output = join of the consolidated inputs)
+	buf.Reset()
+	bw = bufio.NewWriter(&buf)
+	genC19(g, tier, bw)
+	bw.Flush()
+	for i, line := range strings.Split(buf.String(), "\n") {
+		if line != "" && i%6 == 3 {
+			w.WriteString(line)
+			w.WriteByte('\n')
+		}
+	}
 }
 
 func driveC15(toks []string) string {
 	if toks[0] == "gb" || toks[0] == "sgb" {
 		return driveTrigProps(toks)
+	}
+	if toks[0] == "sj" || toks[0] == "oj" {
+		return driveC19(toks)
 	}
 	return driveOps(toks)
 }
